@@ -475,6 +475,25 @@ class Gen:
         if k < 0.15:
             return ("EEq", self.lterms(depth), self.lterms(depth))
         op = "ELeq" if r.random() < 0.5 else "EGeq"
+        if k < 0.25:
+            # an absolute value whose body re-appears outside the bars so that one sign branch cancels every variable and
+            # leaves a bare constant (|x| <= x - 1, x - y - 2 >= |x - y|, |x| + x <= -1): the variable-free row matters
+            body = ("Terms", "+", ("TVar", r.choice(VARS)), [(self.sign(), ("TVar", v)) for v in r.sample(VARS, r.randint(0, 1))])
+            flat = [(body[1], body[2])] + list(body[3])
+            cst = ("PPlain", ("ATerm", r.choice(["+", "-", "-"]), ("TNum", ("CNum", r.choice(NUMS[1:])))))
+            absitem = ("PPlain", ("AAbs", "+", None if r.random() < 0.6 else ("CNum", F(2)), body))
+            scale = 1 if absitem[1][2] is None else 2
+
+            def lin(flip):
+                out = []
+                for sg, t in flat:
+                    sg2 = sg if not flip else ("-" if sg == "+" else "+")
+                    out.append(("PPlain", ("ATerm", sg2, t if scale == 1 else ("TNumVar", ("CNum", F(2)), t[1]))))
+                return out
+            small, big = [absitem], lin(r.random() < 0.3) + [cst]
+            if r.random() < 0.35:
+                small, big = [absitem] + lin(r.random() < 0.5), [cst]
+            return (op, [small, big] if op == "ELeq" else [big, small])
         nsides = r.choice([2, 2, 2, 3, 3, 4]) if r.random() > 0.02 else r.choice([0, 1])
         # convexity-friendly bias: |..| mostly positive on the small side, negative on the big side;
         # a chain has both roles in the middle, so the bias is dropped there half of the time
